@@ -44,6 +44,7 @@ type Engine struct {
 	skipped    []string
 	boundedEv  []string
 	mutableGlobals map[*ssa.Global]string
+	natOK      map[string]bool
 }
 
 var posRe = regexp.MustCompile(` @ \d+:\d+`)
@@ -515,6 +516,7 @@ func buildSMT(prelude, decls string, o *Obligation) string {
 (declare-fun fn_of (Int) Int)
 (declare-fun clo_arg0 (Int) Int)
 (declare-fun rtype (Int) Int)
+(declare-fun xtr (Int Int Int) Int)
 (declare-fun cnt_lt ((Array Int Int) Int Int Int) Int)
 `)
 	b.WriteString(decls)
